@@ -21,6 +21,7 @@ code (grammar-directed generation, judged by `Spec.judge`).
 -/
 import JPV.Spec.Valid
 import JPV.Props.C05
+import JPV.Props.C13
 import JPV.Proofs.CompleteStructural
 namespace JPV.Props
 open JPV
@@ -39,6 +40,20 @@ theorem C03_structural (env : Impl.Env) (s : Str) (c : List Spec.CSegment)
     (hr : Spec.intsQuery env.minIdx env.maxIdx (Spec.abstractSegs c) = true) :
     Impl.compile env s = .ok (Spec.abstractSegs c) :=
   Proofs.compile_complete_structural env s c hp hff hr
+
+/-- End to end, from the RFC side (C03 ∘ C05 ∘ C01): for every string the ABNF derives without filter
+selectors (integers in the I-JSON range) and every well-formed JSON value within the default depth limit,
+compile() succeeds and find() returns exactly the RFC 9535 nodelist of the *derivation* — text in, nodelist
+out, with no reference to what the implementation's parser built. -/
+theorem C01_end_to_end (s : Str) (c : List Spec.CSegment) (v : Json)
+    (hp : Spec.parseQuery s = .valid c)
+    (hff : Spec.filterFree (Spec.abstractSegs c) = true)
+    (hr : Spec.intsQuery builtinEnv.minIdx builtinEnv.maxIdx (Spec.abstractSegs c) = true)
+    (hwf : v.WF) (hd : v.depth ≤ 100) :
+    ∃ q, Impl.compile builtinEnv s = .ok q ∧
+      Impl.find builtinEnv q v = .ok (Spec.select builtinReg (Spec.abstractSegs c) v) :=
+  ⟨_, C03_structural builtinEnv s c hp hff hr,
+    compile_then_find s _ v (C03_structural builtinEnv s c hp hff hr) hwf hd⟩
 
 -- the hypotheses are satisfiable by non-trivial strings (blanks, both quotes, escapes, slices, descendant)
 example : (match Spec.parseQuery "$ [ 'a\\u00e9' , \"b\" ]..[ 1 : : -2 , * ] .é".toList with
